@@ -32,6 +32,7 @@ type FlowOpts struct {
 	BreakW             int // weight of the environment action "break connection"
 	Budget             int
 	SelectMode         uint32
+	StarveP            int // scheduler: permille per step of holding one goroutine back for a stretch
 	Backoff            bool // reader uses ReadBackoff
 	ClientID           string
 	Requesters         int // tasks issuing Subscribe/Unsubscribe/Ping/Publish
@@ -49,6 +50,7 @@ type FlowOpts struct {
 	HostileN           int    // hostile injections per run
 	HostileHandshake   int    // permille of CONNECTs answered by a hostile reply
 	StopWhenPublished  bool   // the incarnation stops (at rest) once every publish call has returned
+	LazyExchanges      bool   // the application does not receive from exchange channels until ReadSlices reported ErrClosed
 	Closers            int    // Close/Disconnect invocations
 	CloserMix          [4]int // Close, Disconnect(nil), Disconnect(open quit), Disconnect(closed quit)
 	CloserW            int    // weight of starting the first closer
@@ -117,6 +119,7 @@ type Flow struct {
 	reqByMarker  map[string]*Req
 	PingReqWire  []int // steps at which a complete PINGREQ was on the wire
 	QStartStep   int
+	StalledEarly bool // the quiescence phase was declared because the world stalled with calls outstanding
 	QStartTime   time.Duration
 	FaultSteps   int
 
@@ -131,42 +134,45 @@ type Flow struct {
 	ReaderClosed   bool
 	FatalSetup     error
 
-	Recvs         []*Recv
-	StrictInbound bool // no connection loss in this run: every message sent must be returned
-	Backoffs      []BackoffRec
-	RSInvokes     int
-	RSReturns     int
-	LastRSReturn  int
-	InSent        int            // application messages the broker has been given so far
-	Owned         map[uint16]int // inbound exactly-once identifiers whose marker is stored -> step of the Save
-	FS            *SimFS         // set when the session runs on the FileSystem store
-	fsCallsInit   int
-	fsInFlight    map[uint64]*DiskOp // Save/Delete in progress on the FileSystem store, per goroutine
-	Damage        []DamageRec
-	Hostiles      []*HostileInj
-	HostileLeft   int
-	ReaderIn      string // API call the reader task is in
-	ReaderInEnd   string // ... when the scheduler loop ended
-	LastReadTime  map[int]time.Duration
-	HoldFinalAcks bool
-	LoadDamage    int // Load results altered in flight
-	lastSeq       uint64
-	Closers       []*Closer
-	ClosedAt      int // step at which the first Close/Disconnect returned
-	ClosedTime    time.Duration
-	ProbeDone     bool
-	LeakedLib     int
-	LeakSample    string
-	Stops         []*StopInfo
-	Carry         map[[2]int]bool // (incarnation, level): transfers of that level were pending at its adoption
-	Gen1Ops       int             // storage operations of the first incarnation after InitSession
-	AdoptWarn     map[int][]error
-	AdoptFatal    error
-	DamagedGen    map[int]bool // incarnations adopted from a deliberately damaged image
-	RetryErrMax   bool         // publisher tasks wait for capacity instead of moving on (long runs)
-	Mon           []Monitor
-	BetweenGens   func(f *Flow, gen int) // hook between a stop and the adoption (image damage)
-	Refuse        func(n int) byte
+	Recvs                        []*Recv
+	StrictInbound                bool // no connection loss in this run: every message sent must be returned
+	Backoffs                     []BackoffRec
+	RSInvokes                    int
+	RSReturns                    int
+	LastRSReturn                 int
+	InSent                       int            // application messages the broker has been given so far
+	Owned                        map[uint16]int // inbound exactly-once identifiers whose marker is stored -> step of the Save
+	FS                           *SimFS         // set when the session runs on the FileSystem store
+	fsCallsInit                  int
+	fsInFlight                   map[uint64]*DiskOp // Save/Delete in progress on the FileSystem store, per goroutine
+	Damage                       []DamageRec
+	Hostiles                     []*HostileInj
+	HostileLeft                  int
+	readerIdleAfterFailedAttempt bool
+	ReaderIn                     string // API call the reader task is in
+	ReaderInEnd                  string // ... when the scheduler loop ended
+	LastReadTime                 map[int]time.Duration
+	HoldFinalAcks                bool
+	LoadDamage                   int // Load results altered in flight
+	lastSeq                      uint64
+	Closers                      []*Closer
+	ClosedAt                     int // step at which the first Close/Disconnect returned
+	ClosedTime                   time.Duration
+	ProbeDone                    bool
+	LeakedLib                    int
+	LeakSample                   string
+	Stops                        []*StopInfo
+	Carry                        map[[2]int]bool // (incarnation, level): transfers of that level were pending at its adoption
+	Gen1Ops                      int             // storage operations of the first incarnation after InitSession
+	AdoptWarn                    map[int][]error
+	AdoptFatal                   error
+	DamagedGen                   map[int]bool          // incarnations adopted from a deliberately damaged image
+	RetryErrMax                  bool                  // publisher tasks wait for capacity instead of moving on (long runs)
+	ActiveReqs                   []*Req                // requests the per-step monitors still have to look at
+	Custom                       func(f *Flow, s *Sim) // extra tasks of a family, started after the session is set up
+	Mon                          []Monitor
+	BetweenGens                  func(f *Flow, gen int) // hook between a stop and the adoption (image damage)
+	Refuse                       func(n int) byte
 }
 
 // Monitor is an oracle plugged into the flow.
@@ -287,6 +293,7 @@ func (f *Flow) OnDisk(op *DiskOp) {
 func drawFlowOpts(t *Tape, thorough bool) FlowOpts {
 	var o FlowOpts
 	o.SelectMode = uint32(1 + t.Draw("selmode", 3))
+	o.StarveP = []int{0, 0, 20, 60}[t.Draw("starvep", 4)]
 	o.PauseTimeout = []time.Duration{250 * time.Millisecond, 50 * time.Millisecond, 2 * time.Second, 0}[t.Draw("pause", 4)]
 	o.RWMin = []time.Duration{0, 10 * time.Millisecond, 100 * time.Millisecond}[t.Draw("rwmin", 3)]
 	o.RWMax = []time.Duration{0, time.Second, time.Minute}[t.Draw("rwmax", 3)]
@@ -418,6 +425,14 @@ func (f *Flow) readerTask(s *Sim) {
 			last = nil
 		}
 		f.RSInvokes++
+		f.readerIdleAfterFailedAttempt = false
+		for _, m := range f.Mon {
+			if c18, ok := m.(*monC18); ok {
+				c18.readerInvokes(f)
+			}
+		}
+		onAtInvoke, _, knownAtInvoke := f.C.VerifSignals()
+		onlinesAtInvoke := len(f.OnlineSteps)
 		f.ReaderIn = "ReadSlices"
 		msg, topic, err := f.C.ReadSlices()
 		f.ReaderIn = ""
@@ -468,6 +483,9 @@ func (f *Flow) readerTask(s *Sim) {
 		f.ReaderErrs = append(f.ReaderErrs, err)
 		f.ReaderErrSteps = append(f.ReaderErrSteps, f.W.Steps)
 		f.W.Ev("reader", 0, "ReadSlices: %v", err)
+		// offline when invoked: the call was a connect attempt, and it failed
+		// (and never came online during the call)
+		f.readerIdleAfterFailedAttempt = knownAtInvoke && !onAtInvoke && len(f.OnlineSteps) == onlinesAtInvoke && !errors.Is(err, mqtt.ErrClosed) && !s.dead
 		if errors.Is(err, mqtt.ErrClosed) {
 			f.ReaderClosed = true
 			return
@@ -587,6 +605,18 @@ func (f *Flow) pubTask(s *Sim, name string, n int) {
 // while (long runs: the per-step monitors must not rescan thousands of
 // finished transfers).
 func (f *Flow) compactActive() {
+	if len(f.ActiveReqs) >= 64 {
+		st := f.W.Steps
+		k := 0
+		for _, r := range f.ActiveReqs {
+			if (r.Ret != 0 && st-r.Ret > 3000) || r.Dead {
+				continue
+			}
+			f.ActiveReqs[k] = r
+			k++
+		}
+		f.ActiveReqs = f.ActiveReqs[:k]
+	}
 	if len(f.Active) < 64 {
 		return
 	}
@@ -619,6 +649,13 @@ func (f *Flow) inflight(qos byte) int {
 
 // pollExchanges drains exchange channels without blocking.
 func (f *Flow) pollExchanges() {
+	if f.O.LazyExchanges && f.ClosedAt == 0 && !f.ReaderClosed {
+		// this application reads its exchange channels only at the end
+		return
+	}
+	if f.O.LazyExchanges && !f.ReaderClosed {
+		return
+	}
 	for _, pb := range f.Active {
 		if pb.Ex == nil || pb.ExClosed {
 			continue
@@ -656,6 +693,18 @@ func (f *Flow) OnHanded(c *Conn, idx int) {
 	sp := &c.Sent[idx]
 	key := uint32(sp.Type)<<16 | uint32(sp.ID)
 	f.handed[key] = append(f.handed[key], HandedRef{C: c, Idx: idx, SentStep: sp.Step, HandStep: c.HandStep[idx]})
+	if sp.Type == PINGRESP {
+		// reach: a pong (of an abandoned ping) arrives while the only
+		// running Ping has not submitted its request yet
+		for _, r := range f.ActiveReqs {
+			if r.Kind == rkPing && r.Invoke != 0 && r.Ret == 0 && r.pingWires == len(f.PingReqWire) {
+				f.W.Probe("pong_meets_unsubmitted_ping")
+				if r.pongMet == 0 {
+					r.pongMet = f.W.Steps
+				}
+			}
+		}
+	}
 }
 
 // HandedAcks lists the broker packets of a type and identifier handed over.
@@ -731,7 +780,7 @@ func (f *Flow) stepHook() {
 		m.Step(f)
 	}
 	f.compactActive()
-	if f.pubTasksLive == 0 && f.reqTasksLive == 0 && f.InSent >= f.O.Inbound && f.QStartStep == 0 && f.quiesceReady() {
+	if f.C != nil && f.pubTasksLive == 0 && f.reqTasksLive == 0 && f.InSent >= f.O.Inbound && f.QStartStep == 0 && f.quiesceReady() {
 		f.QStartStep = w.Steps
 		f.QStartTime = s.Now()
 		f.FaultSteps = w.Steps
@@ -744,6 +793,33 @@ func (f *Flow) stepHook() {
 }
 
 func (f *Flow) quiesceReady() bool { return true }
+
+// stalledInFaultPhase covers the caller that never returns: the workload is
+// not fully issued as long as a task sits in a call, so the quiescence phase
+// never begins. When the world has come to rest all the same (nothing enabled,
+// not even for the environment, no timer pending for an hour of simulated
+// time) while the environment withholds nothing, no later event can change
+// anything: the liveness oracles judge that state as the end of a quiescence
+// phase.
+func (f *Flow) stalledInFaultPhase() {
+	w := f.W
+	s := f.S
+	if !s.Stuck || f.QStartStep != 0 || f.C == nil || f.FatalSetup != nil || w.Gen < f.O.Generations ||
+		f.O.Closers > 0 || f.O.LazyExchanges || len(w.Broker.Held) > 0 || w.Broker.Hold != nil {
+		return
+	}
+	for _, c := range f.recentConns() {
+		if c.Gen == w.Gen && (c.Hostile != nil || c.Stalled) {
+			return
+		}
+	}
+	f.QStartStep = w.Steps
+	f.QStartTime = s.Now()
+	f.FaultSteps = w.Steps
+	f.StalledEarly = true
+	w.Probe("stalled_with_call_outstanding")
+	w.Ev("phase", 0, "the world came to rest in the fault phase with calls outstanding and a conforming environment: judged as the end of a quiescence phase")
+}
 
 func (f *Flow) env() []Action {
 	w := f.W
@@ -879,7 +955,7 @@ func (f *Flow) goalReached() bool {
 			return false
 		}
 	}
-	for _, r := range f.Reqs {
+	for _, r := range f.ActiveReqs {
 		if r.Invoke != 0 && r.Ret == 0 && !r.Dead {
 			return false
 		}
@@ -1042,15 +1118,22 @@ type Req struct {
 	InvTime time.Duration
 	Err     error
 	// wire
-	ID        uint16
-	WireStep  int // step of the complete request packet (0: never complete)
-	WireConn  int
-	Panic     string
-	OnlineInv bool
-	Dead      bool // its process stopped before the call returned
+	ID                 uint16
+	WireStep           int // step of the complete request packet (0: never complete)
+	WireConn           int
+	Panic              string
+	OnlineInv          bool
+	relAtInvoke        int  // releases of the task at invocation
+	AfterFailedAttempt bool // invoked while the reader idled after a failed connect attempt
+	Dead               bool // its process stopped before the call returned
+	pingWires          int  // PINGREQ packets on the wire when the call started
+	pongMet            int  // step at which a PINGRESP was handed over while this Ping had not submitted
 }
 
 func (r *Req) Returned() bool { return r.Ret != 0 }
+
+//lint:ignore U1000 reach probe bookkeeping
+type reqProbe struct{}
 
 func (f *Flow) reqTask(s *Sim, name string, n int) {
 	w := f.W
@@ -1086,50 +1169,128 @@ func (f *Flow) reqTask(s *Sim, name string, n int) {
 			close(r.Quit)
 			r.QuitAt = w.Steps
 		}
-		f.Reqs = append(f.Reqs, r)
-		for _, flt := range r.Filters {
-			f.reqByMarker[flt] = r
-		}
-		if r.Topic != "" {
-			f.reqByMarker[r.Topic] = r
-		}
-		r.Invoke = w.Steps
-		r.InvTime = s.Now()
-		on, _, known := f.C.VerifSignals()
-		r.OnlineInv = on && known
-		w.Ev("api", r.Idx, "%s %s #%d quit=%d", name, rkNames[r.Kind], r.Idx, r.QuitK)
-		func() {
-			defer func() {
-				if p := recover(); p != nil {
-					r.Panic = fmt.Sprint(p)
-					w.Violate("C13", "no-panic", "api-"+rkNames[r.Kind], "%s panicked: %v", rkNames[r.Kind], p)
-				}
-			}()
-			var quit <-chan struct{}
-			if r.Quit != nil {
-				quit = r.Quit
-			}
-			switch r.Kind {
-			case rkPublish:
-				r.Err = f.C.Publish(quit, r.Payload, r.Topic)
-			case rkPublishRetained:
-				r.Err = f.C.PublishRetained(quit, r.Payload, r.Topic)
-			case rkSubscribe:
-				r.Err = f.C.Subscribe(quit, r.Filters...)
-			case rkSubscribeAtMostOnce:
-				r.Err = f.C.SubscribeLimitAtMostOnce(quit, r.Filters...)
-			case rkSubscribeAtLeastOnce:
-				r.Err = f.C.SubscribeLimitAtLeastOnce(quit, r.Filters...)
-			case rkUnsubscribe:
-				r.Err = f.C.Unsubscribe(quit, r.Filters...)
-			case rkPing:
-				r.Err = f.C.Ping(quit)
+		f.issue(s, name, r)
+	}
+}
+
+// issue records the request in the ledger, performs the call and records its
+// result.
+func (f *Flow) issue(s *Sim, name string, r *Req) {
+	w := f.W
+	f.Reqs = append(f.Reqs, r)
+	f.ActiveReqs = append(f.ActiveReqs, r)
+	for _, flt := range r.Filters {
+		f.reqByMarker[flt] = r
+	}
+	if r.Topic != "" {
+		f.reqByMarker[r.Topic] = r
+	}
+	r.Invoke = w.Steps
+	r.InvTime = s.Now()
+	pingWires := len(f.PingReqWire)
+	r.pingWires = pingWires
+	on, _, known := f.C.VerifSignals()
+	r.OnlineInv = on && known
+	r.relAtInvoke = s.Releases[name]
+	r.AfterFailedAttempt = f.readerIdleAfterFailedAttempt && known && !on
+	w.Ev("api", r.Idx, "%s %s #%d quit=%d", name, rkNames[r.Kind], r.Idx, r.QuitK)
+	func() {
+		defer func() {
+			if p := recover(); p != nil {
+				r.Panic = fmt.Sprint(p)
+				w.Violate("C13", "no-panic", "api-"+rkNames[r.Kind], "%s panicked: %v", rkNames[r.Kind], p)
 			}
 		}()
-		r.Ret = w.Steps
-		r.RetTime = s.Now()
-		w.Ev("api", r.Idx, "%s %s #%d -> %s", name, rkNames[r.Kind], r.Idx, shortErr(r.Err))
+		var quit <-chan struct{}
+		if r.Quit != nil {
+			quit = r.Quit
+		}
+		switch r.Kind {
+		case rkPublish:
+			r.Err = f.C.Publish(quit, r.Payload, r.Topic)
+		case rkPublishRetained:
+			r.Err = f.C.PublishRetained(quit, r.Payload, r.Topic)
+		case rkSubscribe:
+			r.Err = f.C.Subscribe(quit, r.Filters...)
+		case rkSubscribeAtMostOnce:
+			r.Err = f.C.SubscribeLimitAtMostOnce(quit, r.Filters...)
+		case rkSubscribeAtLeastOnce:
+			r.Err = f.C.SubscribeLimitAtLeastOnce(quit, r.Filters...)
+		case rkUnsubscribe:
+			r.Err = f.C.Unsubscribe(quit, r.Filters...)
+		case rkPing:
+			r.Err = f.C.Ping(quit)
+		}
+	}()
+	r.Ret = w.Steps
+	r.RetTime = s.Now()
+	if r.Kind == rkPing && r.Err != nil && r.pongMet != 0 && !errors.Is(r.Err, mqtt.ErrMax) {
+		w.Probe("ping_lost_callback_then_failed")
+		for _, b := range f.ActiveReqs {
+			if b != r && b.Kind == rkPing && b.Ret == 0 && b.Invoke > r.pongMet {
+				w.Probe("ping_slot_handover_race")
+			}
+		}
 	}
+	w.Ev("api", r.Idx, "%s %s #%d -> %s", name, rkNames[r.Kind], r.Idx, shortErr(r.Err))
+}
+
+// idWindowTasks: one Subscribe is kept waiting (its SUBACK is held) while
+// another task goes through the whole 13-bit identifier window of the
+// (un)subscribe slots; then a second Subscribe, which the broker fails, and
+// only then the first SUBACK. Each caller must get its own answer.
+func (f *Flow) idWindowTasks(s *Sim) {
+	w := f.W
+	hold := true
+	first := "win/first"
+	w.Broker.Hold = func(c *Conn, p Packet) bool {
+		if !hold || p.Type != SUBACK {
+			return false
+		}
+		r := f.reqByMarker[first]
+		return r != nil && r.ID == p.ID
+	}
+	f.reqTasksLive += 2
+	s.Go("req-first", func() {
+		defer func() { f.reqTasksLive-- }()
+		s.Pause("req")
+		f.issue(s, "req-first", &Req{Idx: len(f.Reqs), Task: "req-first", Kind: rkSubscribe, Filters: []string{first}, WireConn: -1})
+	})
+	s.Go("req-window", func() {
+		defer func() { f.reqTasksLive-- }()
+		// wait until the first SUBSCRIBE is on the wire
+		for i := 0; i < 2000 && !s.dead; i++ {
+			s.Pause("await-first")
+			if r := f.reqByMarker[first]; r != nil && r.WireStep != 0 {
+				break
+			}
+		}
+		n := 8191 + w.Tape.Draw("window-extra", 3)
+		for i := 0; i < n && !s.dead; i++ {
+			s.Pause("req")
+			f.issue(s, "req-window", &Req{Idx: len(f.Reqs), Task: "req-window", Kind: rkUnsubscribe, Filters: []string{fmt.Sprintf("win/churn/%d", i)}, WireConn: -1})
+		}
+		s.Pause("req")
+		f.reqTasksLive++
+		s.Go("req-second", func() {
+			defer func() { f.reqTasksLive-- }()
+			s.Pause("req")
+			f.issue(s, "req-second", &Req{Idx: len(f.Reqs), Task: "req-second", Kind: rkSubscribe, Filters: []string{"win/second/fail"}, WireConn: -1})
+		})
+		// the second SUBSCRIBE goes out, its answer comes back, and only
+		// then the answer to the first
+		for i := 0; i < 4000 && !s.dead; i++ {
+			s.Pause("await-second")
+			if r := f.reqByMarker["win/second/fail"]; r != nil && r.Ret != 0 {
+				break
+			}
+		}
+		hold = false
+		for len(w.Broker.Held) > 0 {
+			w.Broker.Release(0)
+		}
+		w.Probe("identifier_window_wrapped")
+	})
 }
 
 // reqWire links request packets on the wire to their ledger entries.
@@ -1157,7 +1318,7 @@ func (f *Flow) reqWire(c *Conn, p *WirePkt) {
 // quitActions lets the environment close quit channels of running requests.
 func (f *Flow) quitActions() []Action {
 	var acts []Action
-	for _, r := range f.Reqs {
+	for _, r := range f.ActiveReqs {
 		r := r
 		if r.QuitK == quitLater && r.QuitAt == 0 && r.Ret == 0 && r.Invoke != 0 {
 			acts = append(acts, Action{Name: "close-quit", Weight: 2, Run: func() {
